@@ -91,11 +91,14 @@ def run_case(i, seed, tier):
     g = Gen(seed * 1000003 + i)
     cfg = g.cfg(index=i + seed * 7)
     profile = common.PROFILES[i % len(common.PROFILES)]
-    if i % 40 == 7:
+    if i % 40 in (7, 27):
         # directory records filling their sector(s) exactly, with and without spill-over
         from harness.model import Cfg
         cfg = Cfg(level=g.rng.choice([1, 2, 3]), joliet=g.rng.choice([None, 3]))
         ops = common.exact_fill_ops(cfg.level, blocks=g.rng.choice([1, 1, 2, 3]), extra=g.rng.choice([0, 0, 1, 3]))
+        if i % 40 == 27:
+            # the other layouts at sector / path-table / descriptor-area boundaries
+            cfg, ops = common.special_layout(g, common.SPECIALS[(i // 40) % len(common.SPECIALS)])
         h = common.History(cfg, seed * 1000003 + i, 'std')
         for op in ops:
             h.apply(op)
